@@ -205,4 +205,27 @@ example :
     (runForeverO c { s1 with dials := [.established [⟨10, false, .message 1 [0x61] false⟩, ⟨10, false, .eof⟩]] }).2 = .returned false := by
   decide
 
+/- Full-strength target that does NOT hold of the code (finding F13, recorded):
+
+     theorem C14_app_close_clean : "close() called from ANY callback ends the run without an error report
+       and run_forever returns False"
+
+   It fails when close() is called inside on_open / on_reconnect: `setSock` goes on to evaluate
+   `self.sock.sock` with `self.sock = None`.  What is proved instead: the general theorems above
+   (`C14_once_last`, `C14_return_value`, `C14_clean`, `C14_rerun`) hold for every plan including close() in
+   any callback -- the run still returns, on_close is still called once and last, the resources are still
+   released and the return value still agrees with what was reported; missing is only "nothing is reported
+   and False is returned" for close() inside on_open / on_reconnect.  The second-thread variant
+   (`C14_async_close_safe`) is not modelled at all (real-code runs only; same finding). -/
+
+/-- **C14_app_close_counterexample** (F13) — close() inside on_open: an internal AttributeError is reported
+    to on_error and run_forever returns True, although the run simply ended by the application's close(). -/
+theorem C14_app_close_counterexample :
+    let c : Cfg := { has := fun _ => true, plan := fun cb => if cb = .onOpen then [.close] else [], iv := 0,
+                     to := none, payload := [], reconnect := 0, ssl := false, horizon := 100000, fuel := 50 }
+    let w : St := { dials := [.established [⟨100, false, .message 1 [0x68, 0x69] false⟩]] }
+    (runForeverO c w).2 = .returned true ∧
+    (.onError, [.exn .attrError]) ∈ cbs (runForever c w) := by
+  decide
+
 end WS.Props.C14
